@@ -7,7 +7,7 @@
    (==) chromosomes of l have the same fitness row and length; [lexle g a b] = (fitness for g,
    length) of a is lexicographically at most that of b; [chain goals rem fs] = every front of fs is
    exactly the list of non-dominated members of what the earlier fronts left over. *)
-From Coq Require Import List ZArith Reals.
+From Coq Require Import List ZArith Reals Permutation.
 From Verif Require Import Models.C14 Proofs.C14 Models.C14_real Proofs.C14_real.
 Import ListNotations. Import C14.
 
@@ -71,6 +71,19 @@ Theorem C14_later_fronts_fuel : forall fuel goals pop ranked rem,
   later_fronts fuel goals pop ranked rem = later_fronts (length rem) goals pop ranked rem.
 Proof. exact later_fronts_fuel. Qed.
 Print Assumptions C14_later_fronts_fuel.
+
+(* With room for everybody the fronts partition the population: every individual is in exactly one
+   front.  The model's individuals have no rank/distance attribute at all — in the code these are
+   outputs only — so this (and every other theorem here) is independent of whatever rank/distance
+   the chromosomes carry from earlier rounds or from clone(); the correspondence runs feed the real
+   operators chromosomes with arbitrary stale rank/distance values and re-rank the same objects over
+   several rounds, and require the model's (attribute-free) answer. *)
+Theorem C14_fronts_partition : forall goals pop sols coins,
+  sols <> [] -> consistent sols ->
+  Z.of_nat (length (zero_front goals sols coins)) < pop -> Z.of_nat (length sols) <= pop ->
+  Permutation (concat (ranking goals pop sols coins)) sols.
+Proof. exact ranking_partition. Qed.
+Print Assumptions C14_fronts_partition.
 
 (* When the zero front fills the population, the remainder is returned as one unsorted front. *)
 Theorem C14_later_fronts_refuted :
